@@ -617,6 +617,11 @@ class TransferManager(BaseManager):
             if user.status == UserStatus.OFFLINE:
                 continue
 
+            # A task that queues the transfer remotely or initializes it is
+            # still running: don't start another one
+            if transfer.get_tasks():
+                continue
+
             if transfer.direction == TransferDirection.UPLOAD:
                 # Do not add the user if the user is already uploading or a
                 # transfer was already added to the queud upload list (only
@@ -1407,9 +1412,10 @@ class TransferManager(BaseManager):
                     reason = FailReason.CANCELLED
                 elif current_state == TransferState.COMPLETE:
                     reason = FailReason.COMPLETE
-                elif transfer.is_processing():
+                elif transfer.is_processing() or transfer._transfer_task is not None:
                     # Needs investigation, currently don't do anything when the
-                    # transfer is already being processed
+                    # transfer is already being processed (or its
+                    # initialization task was already created)
                     return
                 else:
                     # All good to download
